@@ -32,3 +32,16 @@ package nsqlookupd
 // `exitFunc(http_api.Serve(l.httpListener, httpServer, "HTTP", l.logf))`) have NO contract: the call of `exitFunc` - a closure held in a variable of
 // the ENCLOSING function, captured by these closures - is an opaque dynamic call for the engine (only a closure variable of the same function is
 // followed), so nothing can be stated at their return; the servers they start (TCPServer, Serve) and exitFunc itself (Main$1) are verified.
+
+// (round 7) Main$2 / Main$3 are under contract now: the engine follows a call through a variable of the enclosing function that is assigned
+// once, with a function literal, before the calling literal is created (`exitFunc`). Each server goroutine reports the end of ITS server
+// through exitFunc (Main$1's contract: through the once guard), AFTER it returned and with the error it returned - a goroutine that returned without reporting would leave Main
+// blocked on the exit channel although a server is gone.
+//@ func (l *NSQLookupd) Main$2()
+//@   props C15 C14
+//@   requires l != nil && l.tcpListener != nil && l.tcpServer != nil
+//@   ensures[one-tcp-server-and-its-result-reported] r7TCPServerReturns == old(r7TCPServerReturns) + 1 && r6MLkExitReported == r7TCPServerResult
+//@ func (l *NSQLookupd) Main$3()
+//@   props C15 C14
+//@   requires l != nil && l.httpListener != nil && httpServer != nil
+//@   ensures[one-http-server-and-its-result-reported] r7ServeReturns == old(r7ServeReturns) + 1 && r6MLkExitReported == r7ServeResult
